@@ -1849,15 +1849,25 @@ def case_of_case(n):
     def on_none():
         return copy.deepcopy(B) if B is not None else _block([], None, n, "()")
 
+    copies = [0]
+
     def on_some(v):
-        return _block([{"k": "SLet", "pat": inner, "init": v, "els": None, "sp": n.get("sp")}] + _as_stmts(A)[0], _as_stmts(A)[1], n, n.get("ty"))
+        # every Some leaf gets its own copy of the continuation (fresh ids for what the pattern and the continuation bind)
+        copies[0] += 1
+        pat_k, a_k = copy.deepcopy(inner), copy.deepcopy(A)
+        ids = set(_bound_ids(pat_k)) | set(_bound_ids(a_k))
+        if copies[0] > 1 and ids:
+            base = 7000000 + 1000 * copies[0] + (id(n) % 997) * 100000
+            _rename_bound(pat_k, lambda i: base + i, {}, ids)
+            _rename_bound(a_k, lambda i: base + i, {}, ids)
+        return _block([{"k": "SLet", "pat": pat_k, "init": v, "els": None, "sp": n.get("sp")}] + _as_stmts(a_k)[0], _as_stmts(a_k)[1], n, n.get("ty"))
     count = [0, 0]
     try:
         out = _option_leaves(copy.copy(i0), on_none, on_some, count)
     except Cannot:
         return None
-    if count[1] != 1:
-        return None
+    if count[1] < 1 or (count[1] > 1 and _has_bind(A)):
+        return None          # the continuation is duplicated only when it binds nothing (`{ return x; }`)
     _retype(out, n.get("ty"))
     return out
 
@@ -1975,5 +1985,6 @@ def _expand_in(f, targets, fns, hi, data):
             r = case_of_case(h["body"])
             if r is not None:
                 h["body"] = r
+            _splice(h["body"])       # a rewritten `if let` in statement position is a block of the helper's statements again
         if len(done) != n_mir and f["kind"] != "Closure":
             data["inline_notes"].append("%s: %d helper calls expanded in MIR, %d in HIR" % (f["path"], n_mir, len(done)))
